@@ -61,7 +61,7 @@ def main():
     if procs == 1:
         it = map(framework.run_obligation, work)
     else:
-        pool = ctx.Pool(procs, maxtasksperchild=info.get("maxtasksperchild", 20))
+        pool = ctx.Pool(procs, maxtasksperchild=info.get("maxtasksperchild", 100))
         it = pool.imap_unordered(framework.run_obligation, work)
     for r in it:
         results.append(r)
